@@ -32,6 +32,7 @@ class HasNewTransition(ode_utils.CompileCanary):
               'diff_jacobian',
               'grad',
               'grad_jacobian',
+              'grad_grad',
               'transitionJacobian',
               "pureOdeVector",
               "vMat",
